@@ -31,6 +31,10 @@ def lean_chars(s: str) -> str:
     return "[" + ", ".join("'" + (c if c not in "'\\" else "\\" + c) + "'" for c in s) + "]"
 
 
+def lean_nats(s: str) -> str:
+    return "([" + ", ".join(str(ord(c)) for c in s) + "] : List Nat)"
+
+
 class Tr:
     def __init__(self, spec):
         self.spec = spec
@@ -84,7 +88,7 @@ class Tr:
             if isinstance(v, (int,)):
                 return f"({v} : Rat)" if self.spec.get("numbers") == "Rat" else str(v)
             if isinstance(v, str):
-                return lean_chars(v)
+                return lean_nats(v) if self.spec.get("str") == "nat" else lean_chars(v)
             raise Unsupported(f"constant {v!r}")
         if isinstance(n, ast.JoinedStr):
             parts = []
@@ -112,6 +116,8 @@ class Tr:
             return "(" + op.join(self.cond(v) for v in n.values) + ")"
         if isinstance(n, ast.Compare) and len(n.ops) == 1:
             a, b, op = n.left, n.comparators[0], n.ops[0]
+            if isinstance(op, ast.In) and isinstance(b, ast.Tuple):
+                return "(" + " || ".join(f"({self.e(a)} == {self.e(x)})" for x in b.elts) + ")"
             if isinstance(op, ast.In):
                 return f"({self.e(b)}).contains {self.e(a)}"
             sym = {ast.GtE: "≥", ast.Gt: ">", ast.LtE: "≤", ast.Lt: "<", ast.Eq: "==", ast.NotEq: "!="}.get(type(op))
@@ -126,6 +132,8 @@ class Tr:
                 return f"(min {self.e(n.args[0])} {self.e(n.args[1])})"
             if isinstance(f, ast.Name) and f.id == "len" and len(n.args) == 1:
                 return f"({self.e(n.args[0])}).length"
+            if isinstance(f, ast.Attribute) and f.attr == "join" and len(n.args) == 1 and isinstance(f.value, ast.Constant):
+                return f"(List.intercalate {self.e(f.value)} {self.e(n.args[0])})"
             if isinstance(f, ast.Attribute) and f.attr == "startswith" and len(n.args) == 1:
                 return f"({self.e(n.args[0])}).isPrefixOf {self.e(f.value)}"
             if isinstance(f, ast.Attribute) and f.attr == "endswith" and len(n.args) == 1:
@@ -133,6 +141,11 @@ class Tr:
             raise Unsupported(f"call {src}")
         if isinstance(n, ast.Subscript) and isinstance(n.slice, ast.Slice) and n.slice.upper is None and n.slice.step is None and n.slice.lower is not None:
             return f"(({self.e(n.value)}).drop {self.e(n.slice.lower)})"
+        if isinstance(n, ast.Subscript) and isinstance(n.slice, ast.UnaryOp) and isinstance(n.slice.op, ast.USub) \
+                and isinstance(n.slice.operand, ast.Constant) and n.slice.operand.value == 1:
+            return f"(({self.e(n.value)}).getLast?.getD [])"
+        if isinstance(n, ast.List) and not n.elts:
+            return "[]"
         if isinstance(n, ast.Tuple):
             return "(" + ", ".join(self.e(x) for x in n.elts) + ")"
         raise Unsupported(f"expression {src}")
@@ -175,6 +188,9 @@ class Tr:
                 return f"{ind}let {self.state} := {{ {self.state} with {d[5:]} := {self.e(s.value)} }}\n" + self.block(rest, ind)
             self.types.setdefault(d, self.typ(s.value))
             return f"{ind}let {d} := {self.e(s.value)}\n" + self.block(rest, ind)
+        if isinstance(s, ast.AnnAssign) and isinstance(s.target, ast.Name) and s.value is not None:
+            self.types.setdefault(s.target.id, "list" if isinstance(s.value, ast.List) else self.typ(s.value))
+            return f"{ind}let {s.target.id} := {self.e(s.value)}\n" + self.block(rest, ind)
         if isinstance(s, ast.AugAssign):
             d = self.dotted(s.target)
             op = {ast.Add: "+", ast.Sub: "-"}.get(type(s.op))
@@ -215,6 +231,11 @@ class Tr:
                 if ast.unparse(b[1].test.operand) != a0 or ast.unparse(b[1].body[0].value) != f"(False, {a1})":
                     raise Unsupported("first-reject loop shape")
                 return (f"{ind}match ({self.e(s.iter)}).find? (fun r => !r.1) with\n{ind}| some r => (false, r.2)\n{ind}| none =>\n" + self.block(rest, ind + "  "))
+            # accumulator loop: the body only appends to / pops from ONE local list and uses `continue`
+            acc = self._acc_name(b)
+            if acc is not None:
+                body = self.accbody(list(b), acc, ind + "    ")
+                return (f"{ind}let {acc} := ({self.e(s.iter)}).foldl (fun {acc} {v} =>\n{body}) {acc}\n" + self.block(rest, ind))
             raise Unsupported("for loop shape")
         if isinstance(s, ast.Try) and len(s.body) == 1 and isinstance(s.body[0], ast.Assign) and len(s.handlers) == 1 and not s.orelse and not s.finalbody:
             call = ast.unparse(s.body[0].value)
@@ -226,6 +247,33 @@ class Tr:
                 raise Unsupported("except body")
             return f"{ind}match {self.opaque[call]} with\n{ind}| none => {self.ret(h[0].value)}\n{ind}| some {x} =>\n" + self.block(rest, ind + "  ")
         raise Unsupported(f"statement {type(s).__name__}: {ast.unparse(s)[:50]}")
+
+    def _acc_name(self, body):
+        names = set()
+        for n in ast.walk(ast.Module(body=list(body), type_ignores=[])):
+            if isinstance(n, ast.Call) and isinstance(n.func, ast.Attribute) and n.func.attr in ("append", "pop") and isinstance(n.func.value, ast.Name):
+                names.add(n.func.value.id)
+            elif isinstance(n, (ast.Return, ast.Assign, ast.AugAssign, ast.Await, ast.For, ast.While, ast.Break)):
+                return None
+        return names.pop() if len(names) == 1 else None
+
+    def accbody(self, stmts, acc, ind) -> str:
+        """loop body as an expression yielding the new accumulator"""
+        if not stmts:
+            return ind + acc
+        s, rest = stmts[0], stmts[1:]
+        if isinstance(s, ast.Continue):
+            return ind + acc
+        if isinstance(s, ast.If) and not s.orelse:
+            ends = bool(s.body) and isinstance(s.body[-1], ast.Continue)
+            then = list(s.body) + ([] if ends else rest)
+            return f"{ind}if {self.cond(s.test)} then\n{self.accbody(then, acc, ind + '  ')}\n{ind}else\n{self.accbody(rest, acc, ind + '  ')}"
+        if isinstance(s, ast.Expr) and isinstance(s.value, ast.Call) and isinstance(s.value.func, ast.Attribute) and ast.unparse(s.value.func.value) == acc:
+            if s.value.func.attr == "append" and len(s.value.args) == 1:
+                return f"{ind}let {acc} := {acc} ++ [{self.e(s.value.args[0])}]\n" + self.accbody(rest, acc, ind)
+            if s.value.func.attr == "pop" and not s.value.args:
+                return f"{ind}let {acc} := {acc}.dropLast\n" + self.accbody(rest, acc, ind)
+        raise Unsupported(f"accumulator loop statement {ast.unparse(s)[:40]}")
 
     @staticmethod
     def _assigns_only(b):
@@ -250,10 +298,19 @@ SPECS = [
          types={"self.prefix": "str", "self.upstream": "str", "request.path": "str", "request.query": "str", "path": "str", "remaining": "str", "upstream_url": "str",
                 "self.strip_prefix": "bool", "prefix_ends_with_slash": "bool", "is_valid_match": "bool"},
          stop_at=(ast.Try, "upstream_url")),
+    dict(name="canonicalPath", file="utils/url.py", cls=None, func="canonical_path", str="nat",
+         header="def canonicalPath (decoded : List Nat) (parts : List (List Nat)) : List Nat :=",
+         opaque={"unquote(path)": "decoded", "decoded.split('/')": "parts"},
+         types={"decoded": "str", "parts": "list", "segments": "list", "part": "str", "canonical": "str"}),
 ]
 
 
 def find_func(tree, cls, func):
+    if cls is None:
+        for n in tree.body:
+            if isinstance(n, (ast.FunctionDef, ast.AsyncFunctionDef)) and n.name == func:
+                return n
+        return None
     for n in ast.walk(tree):
         if isinstance(n, ast.ClassDef) and n.name == cls:
             for f in n.body:
@@ -274,7 +331,7 @@ def translate_all() -> tuple[str, dict[str, str]]:
             if f is None:
                 raise Unsupported("function not found")
             body = Tr(spec).block(list(f.body), "  ")
-            out += [f"/-- `{spec['cls']}.{spec['func']}` ({spec['file']}), translated -/", spec["header"], body, ""]
+            out += [f"/-- `{(spec['cls'] + '.') if spec['cls'] else ''}{spec['func']}` ({spec['file']}), translated -/", spec["header"], body, ""]
             status[spec["name"]] = "ok"
         except Unsupported as e:
             out += [f"-- {spec['name']}: NOT TRANSLATED ({e})", ""]
